@@ -1,21 +1,72 @@
 (* C27 — Decimal text parsing and printing are exact inverses.  Property theorems only.
-   PARTIAL (level "other"): the executable model of FromStr/Display (Model/C27_DecText.v, bnum's
-   chunked decimal integer parser included) and the independent grammar reading `parse_spec` are
-   compared with the implementation — and with each other, and print-then-parse is evaluated — on
-   every generated case inside Coq (Corr/C27_run.v).  Proved for all inputs: the decimal digit
-   printer and the digit reader are inverse (the arithmetic core of print/parse), and the repaired
-   defect.  NOT proved (missing): parse (print d) = Ok d for all d, and parse s = Ok v <-> grammar, for
-   all strings — they need the equivalence of the 19-digit-chunk parser with plain positional
-   evaluation on unbounded strings, which was not completed. *)
+   Strings are byte lists.  dec_from_str / dec_to_string are the line-by-line models of FromStr and
+   Display of Decimal (DEC) and PreciseDecimal (PDEC) after the fixes 28f2ef7a5e / 20a6252733, with
+   bnum's decimal integer parser modelled at its 19-digit chunk granularity.
+   grammar_value f s = Some v  iff  s is  [+-]? digit+ ( '.' digit{1,SCALE} )?  and v is its exact
+   value in subunits; parse_spec adds the range test. *)
 From Coq Require Import ZArith NArith List Bool Lia.
 Import ListNotations.
-Require Import RV.Lib.DecCore RV.Model.C27_DecText RV.Proof.C27_DecText.
+Require Import RV.Lib.DecCore RV.Lib.DecCoreFacts RV.Model.C27_DecText RV.Proof.C25_Round
+  RV.Proof.C27_DecText RV.Proof.C27_Uint RV.Proof.C27_SInt RV.Proof.C27_FromStr RV.Proof.C27_Print.
 Open Scope Z_scope.
 
-(* for every non-negative integer: its printed digits are digits, non-empty, and read back to it *)
-Theorem C27_digits_roundtrip_partial : forall n, 0 <= n ->
-  forallb is_digit (digits n) = true /\ horner (digits n) 0 = Some n /\ digits n <> [].
-Proof. exact digits_roundtrip. Qed.
+Definition IsFmt (f : fmt) : Prop := f = DEC \/ f = PDEC.
+Lemma IsFmt_ok f : IsFmt f -> fmt_ok f /\ 10 ^ 19 <= 2 ^ fbits f.
+Proof. intros [->| ->]; (split; [first [apply fmt_ok_DEC|apply fmt_ok_PDEC]|vm_compute; discriminate]). Qed.
+
+(* bnum's chunked parser (first chunk of len mod 19 digits, then 19-digit chunks with multiply /
+   add overflow checks) is plain positional evaluation with one overflow test *)
+Theorem C27_chunked_parser_is_positional : forall bits s, 10 ^ 19 <= 2 ^ bits ->
+  s <> [] -> all_digits s = true ->
+  parse_uint bits s = if dval s <? 2 ^ bits then Ok (dval s) else Err EOverflow.
+Proof. intros; apply parse_uint_digits; assumption. Qed.
+
+(* parsing: for every byte string, from_str returns Ok d exactly when the string is in the grammar with
+   exact value d and d is representable; otherwise it returns an error (never a panic) *)
+Theorem C27_parse_spec : forall f s, IsFmt f ->
+  match parse_spec f s with
+  | Some d => dec_from_str f s = Ok d
+  | None => exists e, dec_from_str f s = Err e
+  end.
+Proof. intros f s Hf. destruct (IsFmt_ok f Hf). apply from_str_spec; assumption. Qed.
+
+Theorem C27_grammar : forall f s d, IsFmt f ->
+  (dec_from_str f s = Ok d <-> grammar_value f s = Some d /\ in_f f d = true).
+Proof.
+  intros f s d Hf. pose proof (C27_parse_spec f s Hf) as H. unfold parse_spec in *.
+  destruct (grammar_value f s) as [v|].
+  - destruct (in_f f v) eqn:Hv.
+    + rewrite H. split; [intros E; inversion E; subst; auto|intros [E _]; inversion E; reflexivity].
+    + destruct H as [e He]. rewrite He. split; [discriminate|intros [E Hd]; inversion E; subst; congruence].
+  - destruct H as [e He]. rewrite He. split; [discriminate|intros [E _]; discriminate].
+Qed.
+Theorem C27_parse_exact : forall f s d, IsFmt f ->
+  dec_from_str f s = Ok d -> grammar_value f s = Some d /\ InF f d.
+Proof.
+  intros f s d Hf H. apply C27_grammar in H; [|exact Hf]. destruct H as [Hg Hi]. split; [exact Hg|].
+  apply in_ity_iff. exact Hi.
+Qed.
+Theorem C27_parse_no_panic : forall f s, IsFmt f -> dec_from_str f s <> Panic.
+Proof.
+  intros f s Hf. pose proof (C27_parse_spec f s Hf) as H. destruct (parse_spec f s).
+  - rewrite H. discriminate.
+  - destruct H as [e He]. rewrite He. discriminate.
+Qed.
+
+(* printing: the text printed for d is in the grammar and denotes exactly d ... *)
+Theorem C27_print_denotes : forall f d, IsFmt f -> InF f d -> parse_spec f (dec_to_string f d) = Some d.
+Proof. intros f d Hf. destruct (IsFmt_ok f Hf). apply print_spec; assumption. Qed.
+(* ... hence printing then parsing gives back the same value, for every representable value *)
+Theorem C27_parse_print : forall f d, IsFmt f -> InF f d -> dec_from_str f (dec_to_string f d) = Ok d.
+Proof.
+  intros f d Hf Hd. pose proof (C27_parse_spec f (dec_to_string f d) Hf) as H.
+  rewrite (C27_print_denotes f d Hf Hd) in H. exact H.
+Qed.
+
+(* printing a non-negative integer in decimal and reading the digits back gives the integer *)
+Theorem C27_digits_roundtrip : forall n, 0 <= n ->
+  all_digits (digits n) = true /\ digits n <> [] /\ dval (digits n) = n.
+Proof. intros n Hn. destruct (digits_spec n Hn) as (A & B & C & _). auto. Qed.
 
 (* the defect that was repaired (fix 28f2ef7a5e / 20a6252733): "1.-5" / "1.+5" were accepted *)
 Theorem C27_fraction_sign_refuted_before_fix :
@@ -35,5 +86,7 @@ Example C27_nonvacuous :
   forallb (roundtrip_ok PDEC) [fmin PDEC; fmax PDEC; 0; 1; -1; -500000000000000000; 10 ^ 36; - 10 ^ 36 - 1] = true.
 Proof. exact roundtrip_samples. Qed.
 
-Print Assumptions C27_digits_roundtrip_partial.
-Print Assumptions C27_fraction_sign_refuted_before_fix.
+Print Assumptions C27_parse_spec.
+Print Assumptions C27_grammar.
+Print Assumptions C27_parse_print.
+Print Assumptions C27_chunked_parser_is_positional.
